@@ -160,7 +160,21 @@ func (d *driver) runPurityProgram(w emitter, pid int, line []byte) {
 				n := []int{1, 2, 3, 17, 128, 256}[o.A%6]
 				sc := make([]fr.Element, n)
 				for i := range sc {
-					sc[i] = rnd.fr()
+					// o.A selects the scalar pattern: dense, zeros interleaved with non-zero values, mostly zero, small
+					switch (o.A / 6) % 4 {
+					case 0:
+						sc[i] = rnd.fr()
+					case 1:
+						if i%2 == 1 {
+							sc[i] = rnd.fr()
+						}
+					case 2:
+						if i%7 == 3 || i == n-1 {
+							sc[i] = rnd.fr()
+						}
+					default:
+						sc[i] = frFromBig(big.NewInt(int64(rnd.intn(3))))
+					}
 				}
 				scb := append([]fr.Element(nil), sc...)
 				_, _ = ipa.MultiScalar(cfg.SRS[:n], sc) // a slice of the SRS itself is handed to the MSM
@@ -171,7 +185,7 @@ func (d *driver) runPurityProgram(w emitter, pid int, line []byte) {
 				cs := make([]*banderwagon.Element, n)
 				zs := make([]uint8, n)
 				for i := 0; i < n; i++ {
-					fs[i] = polyClass([]string{"random", "small", "unit", "const"}[(o.A+i)%4], i, rnd)
+					fs[i] = polyClass([]string{"random", "small", "unit", "const", "sparse"}[(o.A+i)%5], i, rnd)
 					c := cfg.Commit(fs[i])
 					if i%2 == 1 {
 						c = applyRep(c, "proj", rnd)
@@ -216,7 +230,7 @@ func (d *driver) runPurityProgram(w emitter, pid int, line []byte) {
 					}
 				}
 			case "ipa":
-				f := polyClass("random", o.A, rnd)
+				f := polyClass([]string{"random", "sparse", "unit", "small", "linear"}[(o.A/4)%5], o.A, rnd)
 				fb := append([]fr.Element(nil), f...)
 				c := cfg.Commit(f)
 				pt := frFromBig(pointValue([]string{"0", "255", "256", "rnd"}[o.A%4], rnd))
